@@ -85,6 +85,8 @@ def walk_events(ctx, g, lib, b, nwalks, length, extra):
     for w, path in enumerate(tlaval.walks(g, rng, nwalks, maxlen=length)):
         choice = {k: rng.choice(v) for k, v in kind.items()}
         evs = [{"op": "static", "what": "names"}, {"op": "static", "what": "layout"}]
+        if w < 3:                                   # every constant is read at least once per build
+            evs += [{"op": "readc", "i": j + 1, "name": c[0], "expect": "", "cls": ""} for j, c in enumerate(consts)]
         for _act, _args, st in path:
             last = st["last"]
             op = last["op"]
@@ -140,7 +142,7 @@ def lib_records(lib, traces, obs, names_ref, layout_ref):
 
 def validate_lib(ctx, lib, recs):
     data = {"lib": L.tla_lib(lib), "traces": recs}
-    tups = core.tlc_verdicts(ctx, "Trace_CallLib", data, name="Trace_CallLib")
+    tups = core.tlc_verdicts(ctx, "Trace_CallLib", data, name="Trace_CallLib", extra_env=R.LIGHT_JVM)
     r_out = ctx.cov["tlc_runs"][-1]
     bad = {}
     for t in tups:
